@@ -202,8 +202,18 @@ func recoverImage(cfg hapi.Config, im vos.Image, at int64, second bool) recovere
 // followerStart starts a full node configured as follower of an unreachable leader on the image and reports
 // whether the start itself succeeds (a follower reads the tail of its newest append file to learn its position).
 func followerStart(cfg hapi.Config, im vos.Image, at int64) (startErr string, crash string) {
+	return modeStart(cfg, im, at, "follower")
+}
+
+// modeStart: the image under a node configured as a follower / as a member of a replica set (which reads its log
+// position from the newest file before anything else).
+func modeStart(cfg hapi.Config, im vos.Image, at int64, mode string) (startErr string, crash string) {
 	fc := cfg
-	fc.SlaveOf = "127.0.0.1:5999"
+	if mode == "follower" {
+		fc.SlaveOf = "127.0.0.1:5999"
+	} else {
+		fc.ReplSet = "rs"
+	}
 	rt := vrt.Run(vrt.Options{MaxPoints: 100_000_000, StartNow: at}, func() {
 		vos.Install(vos.FromImage(im))
 		node := hapi.Factories["n0"](fc)
@@ -541,6 +551,13 @@ func evalC08(c *Ctx, cs EnumCase) EnumResult {
 				vs = append(vs, explore.Violation{Sig: "C08:recovery-crash/follower", Msg: what + ", node started as a follower: " + cr})
 			} else if se != "" {
 				vs = append(vs, explore.Violation{Sig: "C08:start-failed/follower", Msg: fmt.Sprintf("%s: a node configured as a follower does not start: %s", what, se)})
+			}
+			// ... and under a node that starts as a member of a replica set
+			res.Sub++
+			if se, cr := modeStart(cfg, im, at, "replset"); cr != "" {
+				vs = append(vs, explore.Violation{Sig: "C08:recovery-crash/replica-set-member", Msg: what + ", node started as a replica-set member: " + cr})
+			} else if se != "" {
+				vs = append(vs, explore.Violation{Sig: "C08:start-failed/replica-set-member", Msg: fmt.Sprintf("%s: a node configured as a replica-set member does not start: %s", what, se)})
 			}
 		}
 	case "dat-cut":
